@@ -46,6 +46,9 @@ pub struct Case {
     /// dollars (0 = no cap); the cap must not shrink the assets in the bankruptcy (equity) test
     #[serde(default)]
     pub assets_init_limit: u64,
+    /// the bank holding the account's assets is an isolated-tier bank (weights 0: its deposits back no borrowing)
+    #[serde(default)]
+    pub assets_isolated: bool,
 }
 
 fn bank_spec_by(name: &str) -> BankSpec {
@@ -88,6 +91,10 @@ pub fn prepare(w: &World, s0: &Store, c: &Case) -> Store {
     if c.assets_reduce_only {
         let r = process_tx(&mut s, &Tx::one(ix::configure_bank(w.group, w.roles.admin, w.banks[1].key, marginfi_type_crate::types::BankConfigOpt { operational_state: Some(BankOperationalState::ReduceOnly), ..Default::default() }), &[w.roles.admin]));
         assert!(r.ok());
+    }
+    if c.assets_isolated {
+        let r = process_tx(&mut s, &Tx::one(ix::configure_bank(w.group, w.roles.admin, w.banks[1].key, marginfi_type_crate::types::BankConfigOpt { risk_tier: Some(marginfi_type_crate::types::RiskTier::Isolated), asset_weight_init: Some(I80F48::ZERO.into()), asset_weight_maint: Some(I80F48::ZERO.into()), ..Default::default() }), &[w.roles.admin]));
+        assert!(r.ok(), "switching the asset bank to the isolated tier failed: {}", crate::svm::err_name(r.code()));
     }
     if c.assets_init_limit > 0 {
         // someone else holds $50,000 in that bank, so that the cap is exceeded many thousand times over
@@ -140,6 +147,9 @@ fn tx_of(w: &World, s: &Store, c: &Case) -> Tx {
 }
 
 fn sig(c: &Case) -> String {
+    if c.assets_isolated {
+        return "assets_in_isolated_tier_bank".into();
+    }
     format!("{}:{:?}:perm{}:target{}:flags{}", c.bank, c.signer, c.permissionless, c.target, c.account_flags)
 }
 
@@ -207,8 +217,10 @@ pub fn judge(w: &World, s0: &Store, c: &Case) -> Judged {
     // ---- accepted: everything the statement demands
     let eq = health::health(&pre, &acct, Req::Equity).unwrap();
     let tol = eq.allow.clone() + rf::qfrac(1, 1_000_000_000);
-    if !(eq.assets < eq.liabs.clone() + tol.clone()) || !(eq.assets < rf::qfrac(1, 10) + tol.clone()) {
-        fail("C07.only_real_bad_debt", format!("bankruptcy accepted with unweighted assets ${:.6} and liabilities ${:.6}", rf::qf64(&eq.assets), rf::qf64(&eq.liabs)));
+    // "unweighted assets": deposits in isolated-tier banks are assets too (the program's equity valuation leaves them out)
+    let unweighted = eq.assets.clone() + eq.isolated_unweighted.clone();
+    if !(unweighted < eq.liabs.clone() + tol.clone()) || !(unweighted < rf::qfrac(1, 10) + tol.clone()) {
+        fail("C07.only_real_bad_debt", format!("bankruptcy accepted with unweighted assets ${:.6}{} and liabilities ${:.6}", rf::qf64(&unweighted), if eq.isolated_unweighted > rf::qzero() { " (held in an isolated-tier bank)" } else { "" }, rf::qf64(&eq.liabs)));
     }
     let entitled = matches!(c.signer, Signer::GroupAdmin | Signer::RiskAdmin) || c.permissionless;
     if !entitled {
@@ -314,7 +326,7 @@ pub fn cases(tier: Tier, bank: &str, dist: usize, deposits: u64) -> Vec<Case> {
                 }
                 for &lsv in &lsvs {
                     for (signer, perm) in signers.iter() {
-                        v.push(Case { bank: bank.into(), dist, ins, debt_raw: debt.to_string(), lsv_raw: lsv.to_string(), signer: signer.clone(), permissionless: *perm, target: 0, assets: 0, account_flags: 0, stale_s: 0, assets_reduce_only: false, assets_init_limit: 0 });
+                        v.push(Case { bank: bank.into(), dist, ins, debt_raw: debt.to_string(), lsv_raw: lsv.to_string(), signer: signer.clone(), permissionless: *perm, target: 0, assets: 0, account_flags: 0, stale_s: 0, assets_reduce_only: false, assets_init_limit: 0, assets_isolated: false });
                     }
                 }
             }
@@ -326,7 +338,7 @@ pub fn cases(tier: Tier, bank: &str, dist: usize, deposits: u64) -> Vec<Case> {
         for target in [0u8, 1, 2] {
             for flags in [0u64, ACCOUNT_IN_FLASHLOAN, ACCOUNT_IN_RECEIVERSHIP, ACCOUNT_DISABLED] {
                 for (signer, perm) in [(Signer::RiskAdmin, false), (Signer::Stranger, true), (Signer::Stranger, false)] {
-                    v.push(Case { bank: bank.into(), dist, ins: 1_000, debt_raw: debt.to_string(), lsv_raw: one.to_string(), signer, permissionless: perm, target, assets, account_flags: flags, stale_s: 0, assets_reduce_only: false, assets_init_limit: 0 });
+                    v.push(Case { bank: bank.into(), dist, ins: 1_000, debt_raw: debt.to_string(), lsv_raw: one.to_string(), signer, permissionless: perm, target, assets, account_flags: flags, stale_s: 0, assets_reduce_only: false, assets_init_limit: 0, assets_isolated: false });
                 }
             }
         }
@@ -338,7 +350,7 @@ pub fn cases(tier: Tier, bank: &str, dist: usize, deposits: u64) -> Vec<Case> {
                 for &lsv in &lsvs {
                     for (signer, perm) in [(Signer::RiskAdmin, false), (Signer::Stranger, true)] {
                         let debt = (ins as i128 + deposits as i128 * num / 4) * one + half;
-                        v.push(Case { bank: bank.into(), dist, ins, debt_raw: debt.to_string(), lsv_raw: lsv.to_string(), signer, permissionless: perm, target: 0, assets: 0, account_flags: 0, stale_s, assets_reduce_only: false, assets_init_limit: 0 });
+                        v.push(Case { bank: bank.into(), dist, ins, debt_raw: debt.to_string(), lsv_raw: lsv.to_string(), signer, permissionless: perm, target: 0, assets: 0, account_flags: 0, stale_s, assets_reduce_only: false, assets_init_limit: 0, assets_isolated: false });
                     }
                 }
             }
@@ -347,25 +359,31 @@ pub fn cases(tier: Tier, bank: &str, dist: usize, deposits: u64) -> Vec<Case> {
     // a solvent account whose collateral bank is reduce-only is still solvent
     for assets in [90_000u64, 110_000, 5_000_000_000] {
         for (signer, perm) in [(Signer::RiskAdmin, false), (Signer::Stranger, true)] {
-            v.push(Case { bank: bank.into(), dist, ins: 1_000, debt_raw: debt.to_string(), lsv_raw: one.to_string(), signer, permissionless: perm, target: 0, assets, account_flags: 0, stale_s: 0, assets_reduce_only: true, assets_init_limit: 0 });
+            v.push(Case { bank: bank.into(), dist, ins: 1_000, debt_raw: debt.to_string(), lsv_raw: one.to_string(), signer, permissionless: perm, target: 0, assets, account_flags: 0, stale_s: 0, assets_reduce_only: true, assets_init_limit: 0, assets_isolated: false });
         }
     }
     // ... and so is one whose collateral bank caps the value counted for initial margin far below its deposits
     for assets in [110_000u64, 5_000_000_000] {
         for (signer, perm) in [(Signer::RiskAdmin, false), (Signer::Stranger, true)] {
-            v.push(Case { bank: bank.into(), dist, ins: 1_000, debt_raw: debt.to_string(), lsv_raw: one.to_string(), signer, permissionless: perm, target: 0, assets, account_flags: 0, stale_s: 0, assets_reduce_only: false, assets_init_limit: 1 });
+            v.push(Case { bank: bank.into(), dist, ins: 1_000, debt_raw: debt.to_string(), lsv_raw: one.to_string(), signer, permissionless: perm, target: 0, assets, account_flags: 0, stale_s: 0, assets_reduce_only: false, assets_init_limit: 1, assets_isolated: false });
+        }
+    }
+    // ... and so is one whose assets sit in an isolated-tier bank (they back no borrowing, but they are assets)
+    for assets in [110_000u64, 5_000_000_000] {
+        for (signer, perm) in [(Signer::RiskAdmin, false), (Signer::Stranger, true)] {
+            v.push(Case { bank: bank.into(), dist, ins: 1_000, debt_raw: debt.to_string(), lsv_raw: one.to_string(), signer, permissionless: perm, target: 0, assets, account_flags: 0, stale_s: 0, assets_reduce_only: false, assets_init_limit: 0, assets_isolated: true });
         }
     }
     // a cover large enough for a capped Token-2022 transfer fee to bind (insurance 1,000,000)
     for b in [400_000i128, 999_999, 1_000_000, 1_000_001] {
         for frac in [0i128, half] {
             let d = b * one + frac;
-            v.push(Case { bank: bank.into(), dist, ins: 1_000_000, debt_raw: d.to_string(), lsv_raw: one.to_string(), signer: Signer::RiskAdmin, permissionless: false, target: 0, assets: 0, account_flags: 0, stale_s: 0, assets_reduce_only: false, assets_init_limit: 0 });
+            v.push(Case { bank: bank.into(), dist, ins: 1_000_000, debt_raw: d.to_string(), lsv_raw: one.to_string(), signer: Signer::RiskAdmin, permissionless: false, target: 0, assets: 0, account_flags: 0, stale_s: 0, assets_reduce_only: false, assets_init_limit: 0, assets_isolated: false });
         }
     }
     // assets above liabilities but under ten cents: not bankrupt
     for debt_small in [one / 100, one * 20_000] {
-        v.push(Case { bank: bank.into(), dist, ins: 0, debt_raw: debt_small.to_string(), lsv_raw: one.to_string(), signer: Signer::RiskAdmin, permissionless: false, target: 0, assets: 50_000, account_flags: 0, stale_s: 0, assets_reduce_only: false, assets_init_limit: 0 });
+        v.push(Case { bank: bank.into(), dist, ins: 0, debt_raw: debt_small.to_string(), lsv_raw: one.to_string(), signer: Signer::RiskAdmin, permissionless: false, target: 0, assets: 50_000, account_flags: 0, stale_s: 0, assets_reduce_only: false, assets_init_limit: 0, assets_isolated: false });
     }
     v
 }
@@ -538,7 +556,7 @@ pub fn replay(v: &serde_json::Value) -> Vec<crate::mc::Violation> {
         // recreate a killed bank: debt far above deposits, no insurance
         let (w, s0) = base(bank, 0);
         let one = I80F48::ONE.to_bits();
-        let c = Case { bank: bank.into(), dist: 0, ins: 0, debt_raw: (50_000 * one).to_string(), lsv_raw: one.to_string(), signer: Signer::RiskAdmin, permissionless: false, target: 0, assets: 0, account_flags: 0, stale_s: 0, assets_reduce_only: false, assets_init_limit: 0 };
+        let c = Case { bank: bank.into(), dist: 0, ins: 0, debt_raw: (50_000 * one).to_string(), lsv_raw: one.to_string(), signer: Signer::RiskAdmin, permissionless: false, target: 0, assets: 0, account_flags: 0, stale_s: 0, assets_reduce_only: false, assets_init_limit: 0, assets_isolated: false };
         let j = judge(&w, &s0, &c);
         let Some(k) = j.killed_state else { return vec![] };
         let mut found = vec![];
